@@ -116,6 +116,17 @@ def link_modes(tier):
     return modes
 
 
+def c10env(extra=None):
+    """C.goenv without anything that changes what is built or how goom behaves: cgo on (external link modes), no GOOM_* knobs,
+    no GODEBUG / GOEXPERIMENT / cross-compilation settings inherited from the caller"""
+    e = C.goenv(extra)
+    for k in list(e):
+        if k.startswith('GOOM') or k in ('GODEBUG', 'GOEXPERIMENT', 'GOOS', 'GOARCH', 'GOAMD64', 'GOGC', 'GOMAXPROCS', 'GOTRACEBACK', 'CC', 'CGO_LDFLAGS', 'CGO_CFLAGS'):
+            del e[k]
+    e['CGO_ENABLED'] = '1'
+    return e
+
+
 def build(mode, companion, api=False):
     tag = ('c10api-' if api else 'c10-') + mode['name']
     pdir = C.REPO if api else os.path.join(C.REPO, 'internal/unexports2')
@@ -132,8 +143,10 @@ def build(mode, companion, api=False):
     cmd = ['go', 'test', '-c', '-o', out, '-overlay', ov, '-vet=off']
     if mode.get('gcflags', 'all=-l'):
         cmd.append('-gcflags=' + mode.get('gcflags', 'all=-l'))
+    if not any(a.startswith('-buildmode') for a in mode['args']):
+        cmd.append('-buildmode=exe')       # the non-PIE modes must not become PIE through a default or GOFLAGS
     cmd += mode['args'] + ['.' if api else './internal/unexports2']
-    rc, o, e = C.sh(cmd, cwd=C.REPO, env=C.goenv(), timeout=1800)
+    rc, o, e = C.sh(cmd, cwd=C.REPO, env=c10env(), timeout=3600)
     if rc != 0 or not os.path.exists(out):
         raise C.Infra(f'probe for link mode {mode["name"]} does not build against the current tree:\n{(o + e)[-3000:]}')
     return out
@@ -162,6 +175,7 @@ def variants(mode_name, rng, tier):
         out.append(('no-symtab', {'drop_symtab': True}))
         out.append(('pclntab-data-beyond-eof', {'sec_off': ['.gopclntab', 1 << 40]}))
         out.append(('section-table-beyond-eof', {'shoff': 1 << 40}))
+        out.append(('pclntab-unrecognised', {'sec_off_of': ['.gopclntab', '.text']}))   # header points at bytes that are no pclntab
         out.append(('dup-symbol', {'dup': True}))
     return out
 
@@ -178,6 +192,8 @@ def apply_variant(e, spec, comp):
         e.rename_section(spec['rename'][0].encode(), spec['rename'][1].encode())
     if 'sec_off' in spec:
         e.set_section_offset(spec['sec_off'][0].encode(), spec['sec_off'][1])
+    if 'sec_off_of' in spec:
+        e.set_section_offset(spec['sec_off_of'][0].encode(), e.section(spec['sec_off_of'][1].encode())['off'])
     if 'shoff' in spec:
         e.set_shoff(spec['shoff'])
     if spec.get('drop_symtab'):
@@ -373,7 +389,7 @@ def run_binary(binary, test, ops_line, tag, launch=None):
         if os.path.exists(p):
             os.remove(p)
     if not launch:
-        rc, log = C.run_probe(binary, test, ops_path, out_path, timeout=1500, cwd=WORK)
+        rc, log = C.run_probe(binary, test, ops_path, out_path, timeout=3000, cwd=WORK, env=c10env())
     else:
         d = os.path.join(WORK, 'self', tag)
         shutil.rmtree(d, ignore_errors=True)
@@ -381,12 +397,12 @@ def run_binary(binary, test, ops_line, tag, launch=None):
         prog = os.path.join(d, 'prog.test')
         shutil.copy(binary, prog)
         os.chmod(prog, 0o755)
-        env = C.goenv({'VERIF_OPS': ops_path, 'VERIF_OUT': out_path, 'VERIF_SEED': str(C.seed()), 'VERIF_C10_SELF': launch['self']})
+        env = c10env({'VERIF_OPS': ops_path, 'VERIF_OUT': out_path, 'VERIF_SEED': str(C.seed()), 'VERIF_C10_SELF': launch['self']})
         if launch.get('path_dir'):
             env['PATH'] = launch['path_dir'] + os.pathsep + env.get('PATH', '')
         try:
-            pr = subprocess.run([launch['argv0'], '-test.run', '^' + test + '$', '-test.count=1', '-test.timeout', '600s'], executable=prog,
-                                env=env, cwd=d, capture_output=True, text=True, timeout=700)
+            pr = subprocess.run([launch['argv0'], '-test.run', '^' + test + '$', '-test.count=1', '-test.timeout', '3000s'], executable=prog,
+                                env=env, cwd=d, capture_output=True, text=True, timeout=3100)
             rc, log = pr.returncode, pr.stdout + pr.stderr
         except subprocess.TimeoutExpired:
             rc, log = -1, 'timeout'
@@ -420,6 +436,10 @@ def func_addrs(case, name):
         return None
     slide = (case['facts']['mf'] - d['text'] - anchor[0]) & M64
     return [(d['text'] + o + slide) & M64 for o in case['fnames'].get(name, [])]
+
+
+def is_readable(d):
+    return bool(d.get('open', True) and d.get('elf', True) and d['text'] is not None and d['pcln'] not in (None, 'bad'))
 
 
 def oracle(case, q, obs, rt):
@@ -495,6 +515,9 @@ def run_case(case, exe):
     toks = head + describe_tokens(case['desc'], case['facts']) + [f'q={len(case["queries"])}'] + [q for q, _ in case['queries']]
     line = ' '.join(toks)
     rc, log, obs, rt = run_binary(case['binary'], case.get('test', 'TestVerifC10'), line, case['id'], case.get('launch'))
+    if obs is None:        # killed / timed out / crashed: once more before anything is said (a crash that reproduces is reported)
+        case['retried'] = True
+        rc, log, obs, rt = run_binary(case['binary'], case.get('test', 'TestVerifC10'), line, case['id'], case.get('launch'))
     n = len(case['queries'])
     case['impl'] = obs.split(' ') if obs else [None] * n
     case['rt'] = rt.split(' ') if rt else ['-'] * n
@@ -659,6 +682,8 @@ def conc_histories(cases, comp, rng, tier):
                 # AllFunctions listings (edited by the caller) among the later calls — never among the first n, those are the racing
                 # first lookups.  The model's distinct-name count is quadratic in the table: with thorough's 38k functions one listing
                 # costs the driver ~13 s, so thorough lists only in the 16-goroutine histories of the externally linked executable.
+                if rep % 2 == 1 and tier == 'quick':      # AllFunctions (unguarded GetSymbolTable) racing with the first lookups
+                    h['queries'][rep % n] = ('a:none', 'allfuncs')
                 edits = ('a:clear', 'a:keep=runtime.', 'a:none') if tier == 'quick' else (('a:clear',) if (case['id'], n) == ('ext.as-linked', 16) else ())
                 for j, edit in enumerate(edits):
                     h['queries'].insert(n + (j * 2 * n + rep) % (len(h['queries']) - n), (edit, 'allfuncs'))
@@ -681,6 +706,21 @@ def conc_histories(cases, comp, rng, tier):
     return hs
 
 
+def can_open_mode0():
+    """can this user open a file whose mode is 000 (root with CAP_DAC_OVERRIDE can)?  measured, not assumed from the uid"""
+    p = os.path.join(WORK, 'mode0-probe')
+    open(p, 'w').write('x')
+    os.chmod(p, 0)
+    try:
+        open(p).close()
+        return True
+    except OSError:
+        return False
+    finally:
+        os.chmod(p, 0o600)
+        os.remove(p)
+
+
 def self_histories(cases, comp, rng, tier):
     """Executable unreadable: the child deletes / chmods / rewrites its own executable file before its first lookup and runs
     under an argv[0] naming another Go binary (absolute, or a bare name found through PATH) or garbage.  Deleted: the table
@@ -698,7 +738,7 @@ def self_histories(cases, comp, rng, tier):
         link = os.path.join(pdir, 'zzc10tool-' + cid)
         if not os.path.exists(link):
             os.symlink(ob, link)
-        root = os.geteuid() == 0
+        root = can_open_mode0()
         plans = [('delete', ob, None, False), ('delete', 'zzc10tool-' + cid, pdir, False), ('delete', '/no/such/dir/zz garbage', None, False),
                  ('delete', gotool, None, False), ('chmod000', ob, None, root), ('replace-same', ob, None, True)]
         if cid == 'sym.as-linked':
@@ -751,7 +791,7 @@ def run(tier):
     weak = {'runtime has no name for the function (name-table offset 0): entry compared only': 0,
             'generic instance: runtime prints type arguments as [...], name compared modulo them': 0,
             'data symbol without a Go-level handle in the probe: compared with file value + known bias only': 0}
-    total = nontriv = agreed = 0
+    total = nontriv = agreed = better = 0
     distinct = set()
     bad, diffs, noaddr_hits = [], [], []
     for case in hist:
@@ -785,10 +825,22 @@ def run(tier):
                 bad.append((case, i, why))
             if case['model'] is not None and m == o:
                 agreed += 1
+            elif case['model'] is not None and o and o.startswith('ok:') and m and m.startswith('err:') and not why and not is_readable(case['desc']):
+                better += 1        # the property asks for an error only when the table cannot be read; exact answers (judged by the runtime) are fine
             elif case['model'] is not None:
                 diffs.append((case, i, o, m))
         if case['model'] is None and exe:
             diffs.append((case, -1, None, 'model rejected the history line (bad-op)'))
+    # ---- floors: a lane that silently ran nothing is a machinery failure, not a pass
+    lanes = {'plain': 0, 'expose-first': 0, 'conc': 0, 'convars': 0, 'self': 0, 'allfuncs': 0, 'api': 0}
+    for h in hist:
+        n_obs = sum(1 for o in h['impl'] if o is not None)
+        k = ('api' if h.get('api') else 'convars' if '.convars' in h['id'] else 'conc' if h.get('g') else 'self' if h.get('launch') else
+             'allfuncs' if h['id'].endswith('.allfuncs') else 'expose-first' if h['id'].endswith('.expose-first') else 'plain')
+        lanes[k] += n_obs
+    empty = [k for k, v in lanes.items() if v == 0]
+    if empty or nontriv < 5000 or not any(r == 'exact+ptr' for h in hist for r in h['rt']):
+        raise C.Infra(f'C10 lanes without observations: {empty}; addresses returned: {nontriv}; lanes: {lanes}')
     # ---- classify
     if noaddr_hits:
         case, i, why = noaddr_hits[0]
@@ -855,8 +907,8 @@ def run(tier):
         'rule': 'one evaluation = one call (FindFuncByName / FindVarByName / ExposeFunction / AllFunctions followed by a caller-side edit of the returned set) in a real process of one executable; '
                 'non-trivial = the call returned an address; distinct by (executable, call, address). as-linked executables: every pclntab function, every ELF symbol, '
                 'cross-kind and near-miss names; patched executables: a random sample of both tables plus the generated symbols (thorough: complete sweep also for one text slide, one data slide and the double slide)',
-        'distribution': {'executables': per_mode, 'histories': len(hist), 'outcomes_by_history': stats, 'oracle_complaints': len(bad),
-                         'model_disagreements': len(diffs), 'calls_hitting_known_finding_symtab_entry_without_address': len(noaddr_hits), 'companion': comp_spec, 'addresses_returned': nontriv,
+        'distribution': {'executables': per_mode, 'histories': len(hist), 'observations_by_lane': lanes, 'processes_rerun_once_after_dying': sum(1 for h in hist if h.get('retried')), 'outcomes_by_history': stats, 'oracle_complaints': len(bad),
+                         'model_disagreements': len(diffs), 'exact_answers_where_the_model_expects_an_unreadable_table_error': better, 'calls_hitting_known_finding_symtab_entry_without_address': len(noaddr_hits), 'companion': comp_spec, 'addresses_returned': nontriv,
                          'of_which_judged_by_a_weaker_oracle': weak},
         'samples': [{'history': h['id'], 'query': h['queries'][k][0][:120], 'impl': h['impl'][k], 'runtime': h['rt'][k][:120],
                      'model': h['model'][k] if h['model'] else None} for h in hist[:6] for k in (0, len(h['queries']) // 2)],
